@@ -116,7 +116,7 @@ pub fn run(a: &Args) {
     let mut st = Stats::default();
     // direction 1: cases enumerated by TLC (Gen_NameWire): every start offset
     let mut gen = 0u64;
-    if let Some(p) = &a.cases {
+    if let Some(p) = a.cases.first() {
         for line in std::io::BufReader::new(std::fs::File::open(p).unwrap()).lines() {
             let v: Value = serde_json::from_str(&line.unwrap()).unwrap();
             let b = json_bytes(&v["b"]);
